@@ -2,12 +2,15 @@
 
 package peer
 
-// Injected by /verif with -overlay (not part of the repository): lets the package-agent harness of
-// spec/PeerReg.tla run the keepalive thread's teardown of a connection as a schedulable step.
+// Injected by /verif with -overlay (not part of the repository), used by the package-agent harness of
+// spec/PeerReg.tla.
 
-// ZZVKeepaliveTeardown does exactly what keepaliveLoop does when it declares a connection dead
-// (keepalive timeout or failed keepalive write): close the connection, then run the manager's disconnect path.
-func (m *Manager) ZZVKeepaliveTeardown(conn *Connection, err error) {
-	conn.Close()
-	m.handleDisconnect(conn, err)
+// ZZVWithWriteLock runs f while the manager's mutex is write-locked, the situation "another manager operation
+// (registration, teardown, AddPeer ...) is in progress": everything that needs the mutex queues up behind it and
+// is let go at the same moment when f returns.  Used to make two registerConnection calls for the same peer
+// identity reach their critical sections simultaneously.
+func (m *Manager) ZZVWithWriteLock(f func()) {
+	m.mu.Lock()
+	defer m.mu.Unlock()
+	f()
 }
